@@ -396,7 +396,7 @@ Qed.
 
 (* the labeller, started at the top of a docstring, gives every line of a well-formed docstring its intended label *)
 Theorem labels_as_intended bal bs s :
-  splitlines s = concat (map block_lines bs) -> Chain bal TEXT O bs ->
+  srclines s = concat (map block_lines bs) -> Chain bal TEXT O bs ->
   label_lines bal s = Ok (intended bs).
 Proof. intros E HC. unfold label_lines. rewrite E. apply labels_as_intended_from. exact HC. Qed.
 
